@@ -5,7 +5,6 @@ import numpy as np
 from .. import core, gen
 
 ID = 'C04'
-FOUNDATIONS = ['harness.foundation.concurrent', 'harness.foundation.soak']   # the property's own functions under concurrent calls (validation; proofs in C12)
 LEVEL = 'proof'
 RULE = ('corpus; exhaustive scope: every 3-valued surface on the grids 1x1..2x3 (and 3x1, 3x2) x every marker '
         'placement with labels in {0,1,2} x {cross, box}, return_lines=True (thorough: all; quick: a seeded slice of '
